@@ -604,10 +604,11 @@ class ReplaceConstant(ast.NodeTransformer):
             #raise TranspilationException("Boolean constants not supported! Use integers.")
             return VerilogConstant(int(node.value))
         
-        if isinstance(node.value, (float, complex)):
-            # the simulator raises TypeError on `float & mask` in Wire.put/prepare; a Verilog
-            # real would be silently rounded on assignment
-            raise TranspilationException('Constant should be integer: {}'.format(node.value))
+        if not isinstance(node.value, (int, str)):
+            # float, complex, bytes, None, Ellipsis: the simulator raises TypeError on
+            # `value & mask` in Wire.put/prepare and there is no Verilog integer for them
+            # (a str is kept: docstrings become comments)
+            raise TranspilationException('Constant should be integer: {!r}'.format(node.value))
         
         return VerilogConstant(node.value)
     
